@@ -534,8 +534,10 @@ theorem eraseN_append (a b : Toks) : eraseN a.length (a ++ b) = some b := by
 /-- what is written behind an operator -/
 inductive ActKind
   | unary (x : Toks)        -- one expression operand
-  | nullary                 -- nothing (`^^>`, `|n>`, `<<<`)
+  | nullary                 -- nothing (`^^>`, `|n>`, `<<<`, `=>[]` / `<->` without types)
   | wrapper (w : Toks)      -- `>>>` (as the three tokens `w`)
+  /-- several operands separated by `,`, or type operands (`^@ a, f`, `=>[] T`, `<-> A, B, C, D`) -/
+  | ops (k : OperandKind) (x : Toks) (xs : List Toks)
 
 /-- a written action: `[~] op` followed by an operand, by nothing, or by `>>>` -/
 structure SrcAct where
@@ -547,11 +549,17 @@ structure SrcAct where
   tildeJoint : Bool
   kind : ActKind
 
+/-- operands separated by commas -/
+def commaSepToks : Toks → List Toks → Toks
+  | x, [] => x
+  | x, y :: ys => x ++ (TT.punct ',' false :: commaSepToks y ys)
+
 def SrcAct.body (a : SrcAct) : Toks :=
   match a.kind with
   | .unary x => x
   | .nullary => []
   | .wrapper w => w
+  | .ops _ x xs => commaSepToks x xs
 
 def SrcAct.isWrapper (a : SrcAct) : Bool :=
   match a.kind with
@@ -576,6 +584,7 @@ def SrcAct.tail (a : SrcAct) (rest : Toks) : Toks :=
   | .unary x => x ++ rest
   | .nullary => rest
   | .wrapper _ => rest
+  | .ops _ x xs => commaSepToks x xs ++ rest
 
 /-- the unit in front of `acts` ends with: which action follows, and what is left for it -/
 def nextOf (term : Toks) : List SrcAct → Option NextGroup × Toks
@@ -586,6 +595,21 @@ def nextOf (term : Toks) : List SrcAct → Option NextGroup × Toks
 def OperandOK (o : Oracle) (x after : Toks) : Prop :=
   (∀ t ∈ x, isTilde t = false) ∧ o.valid .expr x = true ∧
   ∀ p s, x = p ++ s → s ≠ [] → stopHere o .expr false p (s ++ after) = false
+
+/-- what an operand of kind `k` is parsed as -/
+def synOfKind : OperandKind → Syn
+  | .expr => .expr
+  | .type => .type
+
+/-- an operand parsed as `syn` in front of `after` -/
+def OperandOKs (o : Oracle) (syn : Syn) (x after : Toks) : Prop :=
+  (∀ t ∈ x, isTilde t = false) ∧ o.valid syn x = true ∧
+  ∀ p s, x = p ++ s → s ≠ [] → stopHere o syn false p (s ++ after) = false
+
+/-- comma-separated operands, each complete and without a split point in front of what follows it -/
+def OperandsOK (o : Oracle) (syn : Syn) : Toks → List Toks → Toks → Prop
+  | x, [], after => OperandOKs o syn x after
+  | x, y :: ys, after => OperandOKs o syn x (TT.punct ',' false :: (commaSepToks y ys ++ after)) ∧ OperandsOK o syn y ys after
 
 /-- the operator of the first action is recognised where it stands, and `>>>` follows it exactly when written -/
 def HeadOK (term : Toks) : List SrcAct → Prop
@@ -604,8 +628,12 @@ def ActsOK (o : Oracle) (term : Toks) : List SrcAct → Prop
     HeadOK term (a :: as) ∧
     (match a.kind with
       | .unary x => arityOf a.comb = some ⟨a.ctor, 1, false, .expr⟩ ∧ OperandOK o x (renderActs term as)
-      | .nullary => ∃ k, arityOf a.comb = some ⟨a.ctor, 0, true, k⟩
-      | .wrapper _ => wrapperCtorOf a.comb = some a.ctor) ∧
+      | .nullary => ∃ n k, arityOf a.comb = some ⟨a.ctor, n, true, k⟩
+      | .wrapper _ => wrapperCtorOf a.comb = some a.ctor
+      | .ops k x xs =>
+        ∃ ae, arityOf a.comb = some ⟨a.ctor, xs.length + 1, ae, k⟩ ∧ a.comb ≠ .unwrap ∧
+          (ae = true → x ≠ [] ∧ firstMatch (commaSepToks x xs ++ renderActs term as) = none) ∧
+          OperandsOK o (synOfKind k) x xs (renderActs term as)) ∧
     ActsOK o term as
 
 /-- the `>>>`/`<<<` balance never goes below zero (it restarts at every `~`) -/
@@ -620,6 +648,7 @@ def expMember (o : Oracle) (a : SrcAct) : Member :=
   | .unary x => ⟨a.ctor, a.deferred, a.mv, [mkOperand o .expr x]⟩
   | .nullary => ⟨a.ctor, a.deferred, a.mv, []⟩
   | .wrapper _ => ⟨a.ctor, a.deferred, .wrap, [⟨.expr, Tables.wrapperPlaceholder⟩]⟩
+  | .ops k x xs => ⟨a.ctor, a.deferred, a.mv, (x :: xs).map (mkOperand o k)⟩
 
 theorem ActsOK.head {o : Oracle} {term : Toks} {acts : List SrcAct} (h : ActsOK o term acts) : HeadOK term acts := by
   cases acts with
@@ -685,6 +714,72 @@ theorem parseUntil_acts (o : Oracle) (syn : Syn) (ae : Bool) (term x : Toks) (ac
       have hlen := (h6 hw).2.2
       simp only [SrcAct.body, hk] at hlen
       simp [SrcAct.isWrapper, SrcAct.tail, SrcAct.body, hk, ← hlen]
+    | ops k x xs => simp [SrcAct.isWrapper, SrcAct.tail, SrcAct.body, hk]
+
+/-- once something has been collected, a scan for an *empty* unit never stops at a determiner: it runs to the end -/
+theorem scan_empty_nonempty (o : Oracle) (fuel : Nat) :
+    ∀ (acc input : Toks) (d : Bool), acc ≠ [] → ∀ r, scan o .empty true fuel acc input d = .ok r → r.2.1 = none ∧ r.1 ≠ [] := by
+  induction fuel with
+  | zero => intro acc input d _ r h; simp [scan] at h
+  | succ fuel ih =>
+    intro acc input d hacc r h
+    by_cases hin : input = []
+    · subst hin; simp [scan] at h; subst h; exact ⟨rfl, hacc⟩
+    · have hne : acc.isEmpty = false := by cases acc <;> simp_all
+      have hst : stopHere o .empty true acc input = false := by simp [stopHere, Oracle.valid, hne]
+      cases hs : stripTilde input with
+      | nil => rw [scan_eof o _ _ _ _ _ _ hin hst hs] at h; cases h
+      | cons t rest =>
+        rw [scan_continue o _ _ _ _ _ _ t rest hin hst hs] at h
+        exact ih _ _ _ (by simp) r h
+
+/-- the attempt to read an *empty* unit fails when an operand stands there: something that is not the start of an operator -/
+theorem parseUntil_empty_fails (o : Oracle) (input : Toks) (hne : input ≠ [])
+    (hnt : Tables.deferredDet.check input = false) (hfm : firstMatch input = none) :
+    ∃ e, parseUntil o .empty true input = .error e := by
+  unfold parseUntil
+  cases input with
+  | nil => exact absurd rfl hne
+  | cons t rest =>
+    have hstrip : stripTilde (t :: rest) = t :: rest := by unfold stripTilde; rw [hnt]; simp
+    have hst : stopHere o .empty true [] (t :: rest) = false := by simp [stopHere, hstrip, hfm]
+    rw [show (t :: rest).length + 1 = (rest.length + 1) + 1 from rfl,
+      scan_continue o .empty true (rest.length + 1) [] (t :: rest) false t rest (by simp) hst hstrip]
+    cases hsc : scan o .empty true (rest.length + 1) ([] ++ [t]) rest (Tables.deferredDet.check (t :: rest)) with
+    | error e => exact ⟨e, rfl⟩
+    | ok r =>
+      obtain ⟨h1, h2⟩ := scan_empty_nonempty o _ _ _ _ (by simp) r hsc
+      obtain ⟨toks, nx, d, inp⟩ := r
+      simp only at h1 h2
+      subst h1
+      have hv : o.valid .empty toks = false := by cases toks <;> simp_all [Oracle.valid]
+      exact ⟨.unexpectedTokens, by simp [hv]⟩
+
+/-- the operands of an action with several (or type) operands, separated by commas, the last one followed by the next
+    action or the terminator -/
+theorem parseUnits_ops (o : Oracle) (syn : Syn) (term : Toks) (as : List SrcAct) (hhead : HeadOK term as) (xs : List Toks) :
+    ∀ (x : Toks) (acc : List Toks), OperandsOK o syn x xs (renderActs term as) →
+      parseUnits o syn (xs.length + 1) (commaSepToks x xs ++ renderActs term as) acc =
+        .ok (acc ++ (x :: xs), (nextOf term as).1, (nextOf term as).2) := by
+  induction xs with
+  | nil =>
+    intro x acc hx
+    obtain ⟨h1, h2, h3⟩ := hx
+    have hpu := parseUntil_acts o syn false term x as h1 h2 h3 hhead
+    simp [parseUnits, commaSepToks, hpu]
+  | cons y ys ih =>
+    intro x acc hx
+    obtain ⟨⟨h1, h2, h3⟩, hrest⟩ := hx
+    have hpu := parseUntil_sep o syn false x false (commaSepToks y ys ++ renderActs term as) h1 h2 h3
+    have hin : commaSepToks x (y :: ys) ++ renderActs term as =
+        x ++ TT.punct ',' false :: (commaSepToks y ys ++ renderActs term as) := by
+      simp [commaSepToks, List.append_assoc]
+    rw [hin]
+    show parseUnits o syn ((ys.length + 1) + 1) _ acc = _
+    conv => lhs; unfold parseUnits
+    simp only [hpu, Nat.add_one_ne_zero, if_false, eatComma, Option.isSome_none, Bool.false_eq_true]
+    rw [ih y (acc ++ [x]) hrest]
+    simp [List.append_assoc]
 
 theorem unary_not_unwrap (c ctor : Comb) (h : arityOf c = some ⟨ctor, 1, false, .expr⟩) : (c == Comb.unwrap) = false := by
   cases c <;> try rfl
@@ -709,7 +804,7 @@ theorem parseGroup_act (o : Oracle) (term : Toks) (a : SrcAct) (as : List SrcAct
       SrcAct.tail, hk, hpu, expMember]
   | nullary =>
     rw [hk] at hkind
-    obtain ⟨k, har⟩ := hkind
+    obtain ⟨n, k, har⟩ := hkind
     have hpu := parseUntil_acts o .empty true term [] as (by simp) rfl (fun p s h1 h2 => by
       have : p = [] ∧ s = [] := by simpa using h1.symm
       exact absurd this.2 h2) hnext
@@ -729,6 +824,47 @@ theorem parseGroup_act (o : Oracle) (term : Toks) (a : SrcAct) (as : List SrcAct
     have hw : a.isWrapper = true := by simp [SrcAct.isWrapper, hk]
     refine ⟨[], ?_⟩
     simp [parseGroup, SrcAct.grp, SrcAct.mv, hw, hkind, SrcAct.tail, hk, hpu, expMember]
+  | ops k x xs =>
+    rw [hk] at hkind
+    obtain ⟨ae, har, hnu, hae, hops⟩ := hkind
+    have hnw : a.isWrapper = false := by simp [SrcAct.isWrapper, hk]
+    have hnu' : (a.comb == Comb.unwrap) = false := by simpa using hnu
+    refine ⟨x :: xs, ?_⟩
+    have hfirst : ae = true → ∃ e, parseUntil o .empty true (commaSepToks x xs ++ renderActs term as) = .error e := by
+      intro hae'
+      obtain ⟨hxne, hfm⟩ := hae hae'
+      have hx1 : ∀ t ∈ x, isTilde t = false := by
+        cases xs with
+        | nil => exact hops.1
+        | cons y ys => exact hops.1.1
+      have hne : commaSepToks x xs ++ renderActs term as ≠ [] := by
+        cases x with
+        | nil => exact absurd rfl hxne
+        | cons t r => cases xs <;> simp [commaSepToks]
+      have hnt : Tables.deferredDet.check (commaSepToks x xs ++ renderActs term as) = false := by
+        cases hc : Tables.deferredDet.check (commaSepToks x xs ++ renderActs term as) with
+        | false => rfl
+        | true =>
+          obtain ⟨j', r, hr⟩ := (deferred_iff _).1 hc
+          cases x with
+          | nil => exact absurd rfl hxne
+          | cons t rx =>
+            have ht := hx1 t (by simp)
+            have : t = TT.punct '~' j' := by
+              cases xs <;> simp [commaSepToks] at hr <;> exact hr.1
+            rw [this] at ht
+            simp [isTilde] at ht
+      exact parseUntil_empty_fails o _ hne hnt hfm
+    simp only [parseGroup, SrcAct.grp, SrcAct.mv, hnw, hnu', Bool.false_eq_true, if_false, har, parseNOrEmpty,
+      SrcAct.tail, hk]
+    cases k <;>
+      (have hunits := parseUnits_ops o _ term as hnext xs x [] hops
+       simp only [synOfKind] at hunits
+       cases hae' : ae with
+       | false => simp [hunits, expMember, SrcAct.mv, hnw, hnu', hk]
+       | true =>
+         obtain ⟨e, he⟩ := hfirst hae'
+         simp [he, hunits, expMember, SrcAct.mv, hnw, hnu', hk])
 
 /-- what the chain builder leaves of the terminator: the separating comma is consumed -/
 def afterTerm (term : Toks) : Toks := (eatComma term).getD term
@@ -747,8 +883,11 @@ theorem finish_chain (term : Toks) (hterm : TermOK term) (pat : Option BranchPat
     `<<<`) and `[~] op >>>`, each operator recognised where it stands, every operand complete and without a top-level
     split point, `>>>`/`<<<` balanced within each step, followed by the end of the input or by the `,` that separates the
     branch from the next one: the chain builder returns exactly these members, in order, each with the `~` flag and the
-    `>>>`/`<<<` role it was written with, and consumes exactly the chain and its separating comma.  (Operators with
-    several operands or type operands — `^@`, `?^@`, `=>[] T`, `<-> A,B,C,D` — are not covered: partial.) -/
+    `>>>`/`<<<` role it was written with, and consumes exactly the chain and its separating comma.  Operators with
+    several operands (`^@ init, f`, `?^@ init, f`) and with type operands (`=>[] T`, `<-> A, B, C, D`) are the action
+    kind `ops`: each operand becomes one operand of the member, in order, of the operator's kind; where the operator
+    allows its operand list to be left out (`=>[]`, `<->`) that is the kind `nullary`.  (Partial: the initial expression
+    is not a `let`, and the input has no handler or option items — see `input_roundtrip_partial`.) -/
 theorem chain_roundtrip_partial (o : Oracle) (term : Toks) (acts : List SrcAct) :
     ∀ (a : SrcAct) (members : List Member) (pat : Option BranchPat) (w : Int) (fuel : Nat),
       ActsOK o term (a :: acts) → BalanceOK w acts → acts.length + 1 ≤ fuel →
@@ -955,6 +1094,21 @@ example :
         (fun r => (r.1.members.map (fun m => (m.ctor.name, m.deferred, m.mv == .wrap, m.mv == .unwrap, m.ops.length)), r.2.length)) =
       some ([("Initial", false, false, false, 1), ("Map", false, false, false, 1), ("AndThen", true, true, false, 1),
              ("UNWRAP", false, false, true, 0)], 0) := by
+  intro o toks
+  rfl
+
+/-- … and on operators with two operands and with a type operand: `a ^@ i, f =>[] T <->` -/
+example :
+    let o : Oracle := { validExpr := fun ts => ts.length == 1, validType := fun ts => ts.length == 1, isBlock := fun _ => false,
+                        letSplit := fun _ => .notLet, reprintExpr := id, reprintType := id, exprPrefix := fun _ => none,
+                        pathPrefix := fun _ => none, litBool := fun _ => none }
+    let toks : Toks := [.ident "a", .punct '^' true, .punct '@' false, .ident "i", .punct ',' false, .ident "f",
+                        .punct '=' true, .punct '>' false, .group .bracket [], .ident "T",
+                        .punct '<' true, .punct '-' true, .punct '>' false]
+    (buildChain o 10 ⟨.initial, false, .none⟩ toks [] none 0 true).toOption.map
+        (fun r => (r.1.members.map (fun m => (m.ctor.name, m.ops.map (fun op => (op.kind == .type, op.toks)))), r.2.length)) =
+      some ([("Initial", [(false, [.ident "a"])]), ("Fold", [(false, [.ident "i"]), (false, [.ident "f"])]),
+             ("Collect", [(true, [.ident "T"])]), ("Unzip", [])], 0) := by
   intro o toks
   rfl
 
